@@ -1,5 +1,7 @@
 import ZV.Model.C05
 import ZV.Model.C05List
+import ZV.Model.C05Csr
+import ZV.Drv.C18
 import ZV.Drv.C04
 /-! line protocol for C05 (csr / crl lines are T3-only and never reach the driver):
       `c05 rl <seed> <key> <alg> <entries>`   entries: `,`-separated `serial:YYYYMMDDHHMMSS:reason|-:extras|-`,
@@ -71,8 +73,71 @@ def showPRL (r : PRL) : String :=
     ++ " entries=" ++ (match r.entries with | none => "nil" | some es => showList ";" (es.map showPE))
     ++ " exts=" ++ showList "+" (r.exts.map showPExt)
 
+/-! CSR ops:
+      `c05 csrm <seed> <key> <alg> <sigAI> <spki> <subject> <dns> <email> <ips> <extras>`  (name lists: `,`-separated hex, `e` = empty string)
+        → `ok tbs=<hex> <parsed request>` | `err` | `created-but-rejected`
+      `c05 csrp <der hex>` → `ok <parsed request>` | `err`;   `c05 xsch <type> <schema>` → `match` | `differ`
+      parsed request: `ver= subj= sig= exts=<dotted oid/crit/valuehex+…> dns= email= ips=` -/
+def parseHexList (s : String) : Option (List Bytes) :=
+  if s == "-" then some [] else (s.splitOn ",").mapM (fun p => if p == "e" then some [] else ofHex p)
+
+def showHexList (l : List Bytes) : String :=
+  if l.isEmpty then "-" else ",".intercalate (l.map fun b => if b.isEmpty then "e" else toHex b)
+
+def showPX (x : Csr.PX) : String :=
+  ".".intercalate (x.oid.map toString) ++ "/" ++ (if x.critical then "1" else "0") ++ "/" ++ toHex x.value
+
+def showPCSR (c : Csr.PCSR) : String :=
+  "ver=" ++ toString c.version ++ " subj=" ++ toHex c.rawSubject ++ " sig="
+    ++ toHex (rightAlign (8 * c.sigBits.1.length - c.sigBits.2.toNat) c.sigBits.1)
+    ++ " exts=" ++ showList "+" (c.exts.map showPX)
+    ++ " dns=" ++ showHexList c.sans.dns ++ " email=" ++ showHexList c.sans.email ++ " ips=" ++ showHexList c.sans.ips
+
+def schemaByName (n : String) : Option C18.Schema :=
+  if n == "certificateRequest" then some Csr.csrSchema
+  else if n == "tbsCertificateRequest" then some Csr.tbsCsrSchema
+  else if n == "publicKeyInfo" then some Csr.spkiSchema
+  else if n == "AlgorithmIdentifier" then some Csr.aiSchema
+  else if n == "extensions" then some Csr.extsSchema
+  else if n == "RDNSequence" then some Csr.rdnSchema
+  else none
+
 def handle (args : List String) : String :=
   match args with
+  | ["xsch", n, sc] =>
+    (match schemaByName n, C18.parseSchema sc with
+     | some a, some b => if reprStr a == reprStr b then "match" else "differ"
+     | none, some _ => "match"      -- a type this model has no schema for (listed by the harness for other ops)
+     | _, _ => "bad-op")
+  | ["csrm", _seed, _key, _alg, ai, spki, subj, dns, email, ips, extras] =>
+    match ofHex ai, ofHex spki, ofHex subj, parseHexList dns, parseHexList email, parseHexList ips,
+          (splitList "+" extras).mapM parseEExtStr with
+    | some ai, some spki, some subj, some dns, some email, some ips, some xs =>
+      (match Csr.createCSRInfo spki ⟨subj, dns, email, ips, xs⟩ with
+       | .ok tbs =>
+         (match Csr.parseCSR (wrapSigned tbs ai [0]) with
+          | .ok c => "ok tbs=" ++ toHex tbs ++ " " ++ showPCSR { c with sigBits := ([], 0) }
+          | .err => "created-but-rejected"
+          | .panic => "panic")
+       | .err => "err"
+       | .panic => "panic")
+    | _, _, _, _, _, _, _ => "bad-op"
+  | ["crlm", _seed, _key, ai, name, ski, now, exp, entries] =>
+    match ofHex ai, ofHex name, ofHex ski, parseTimeStr now, parseTimeStr exp, (splitList "," entries).mapM parseEntryTStr with
+    | some ai, some name, some ski, some now, some exp, some es =>
+      (match Legacy.createLegacyTBS ai name ski (es.map fun e => ⟨e.serial, e.time, e.extras⟩) now exp with
+       | .ok tbs => "ok tbs=" ++ toHex tbs
+       | .err => "err"
+       | .panic => "panic")
+    | _, _, _, _, _, _ => "bad-op"
+  | ["csrp", h] =>
+    match ofHex h with
+    | none => "bad-op"
+    | some der =>
+      (match Csr.parseCSR der with
+       | .ok c => "ok " ++ showPCSR c
+       | .err => "err"
+       | .panic => "panic")
   | ["rlist", _seed, _key, _alg, ai, subj, ski, cs, tu, nu, num, entries, extras] =>
     match ofHex ai, ofHex subj, ofHex ski, parseBool01 cs, parseTimeStr tu, parseTimeStr nu,
           (if num == "nil" then some none else (parseInt num).map some),
